@@ -41,6 +41,7 @@ PROPS = {
             H("c01_exchange", cost=30, entry="Members::apply both directions"),
             H("e4_can_change_smt", engine="smt", cost=100, entry="Member::can_change (MIR -> SMT-LIB2, z3 + cvc5)", bounds="all u16 incarnations, 3 states; 6 queries x 2 solvers; translation validated on 72 points"),
             H("a_apply1_k1", cost=120, entry="Foca::apply_many(once(u))"),
+            H("d_gossip_upd_never", cost=90, entry="Foca::handle_data(Gossip + 1 update)", bounds="no prior record, fan-out 1, non-renewable identity; every field of sender, header and update symbolic"),
             H("a_apply1_k2", tier=T, cost=220, entry="Foca::apply_many(once(u))"),
             H("a_apply1_k3", tier=T, cost=400, entry="Foca::apply_many(once(u))"),
             H("a_own_state_noop", tier=T, cost=300, entry="Foca::apply_many(iter_membership_state())"),
@@ -61,7 +62,7 @@ PROPS = {
         "assumptions": [STUBS],
         "harnesses": [
             H("c11_timeout_iff", cost=40), H("t_probe_k2", cost=60), H("d_ack", cost=70), H("d_fwd_ack", cost=105),
-            H("a_apply1_k1", cost=120), H("t_indirect_k2", cost=70), H("c14_next_k3", cost=40), H("c07_send_pb_17", cost=75),
+            H("a_apply1_k1", cost=120), H("t_indirect_k2", cost=70), H("c14_next_k3", cost=40), H("c07_send_pb_17", cost=75), H("d_ping_upd_never", cost=115),
             H("d_ping_upd", tier=T, cost=900, timeout_t=3600, mem_gb=44), H("d_gossip_upd", tier=T, cost=900, timeout_t=3600, mem_gb=44), H("t_probe_k3", tier=T, cost=120),
         ],
     },
@@ -72,11 +73,11 @@ PROPS = {
         "assumptions": [STUBS, "every Rust panic / overflow / index / debug_assert check inside foca is a C06 obligation in every harness"],
         "harnesses": [
             H("c06_set_config_grow", cost=60), H("c06_set_config_shrink", cost=60), H("c06_fuzz_feed_2", cost=120),
-            H("c06_fuzz_broadcast_5", cost=120), H("d_ping", cost=80), H("t_probe_k2", cost=60),
+            H("c06_fuzz_broadcast_5", cost=120), H("d_ping", cost=80), H("t_probe_k2", cost=60), H("t_indirect_k2", cost=70),
             H("c06_config_new_lan", cost=10, **CD), H("c06_config_new_wan", cost=10, **CD), H("bc_fill_prefix_1", cost=120, **BC),
             H("c06_set_config_same", tier=T), H("c06_set_config_gossip", tier=T, cost=600, timeout_t=3000), H("c06_fuzz_gossip_7", tier=T, cost=900, timeout_t=3600), H("c06_fuzz_gossip_9", tier=T, cost=900, timeout_t=3600), H("c06_fuzz_ping_7", tier=T, cost=900, timeout_t=3600),
             H("c06_fuzz_turnundead_3", tier=T, cost=300), H("a_apply1_k2", tier=T, cost=220), H("d_turn_undead_never", tier=T, cost=200), H("d_turn_undead_next", tier=T, cost=600, timeout_t=3000),
-            H("a_leave", tier=T), H("a_change_identity", tier=T), H("t_indirect_k2", tier=T), H("t_announce_down", tier=T, cost=120),
+            H("a_leave", tier=T), H("a_change_identity", tier=T), H("t_announce_down", tier=T, cost=120),
             H("c07_send_pb_9", tier=T), H("c07_send_feed_failing", tier=T, cost=600, timeout_t=3000),
         ],
     },
@@ -108,14 +109,14 @@ PROPS = {
     "C09": {
         "level": "model_checking", "bounds": BOUNDS_E1, "outside": "change_identity to another member's address (identity changes keep the address: the renew contract); " + OUT_E1, "assumptions": [STUBS],
         "harnesses": [
-            H("a_apply1_k1", cost=120), H("d_ping", cost=80), H("t_remove", cost=70), H("c01_monotone", cost=15), H("c01_frame", cost=100), H("d_broadcast_custom", cost=65),
+            H("a_apply1_k1", cost=120), H("d_ping", cost=80), H("t_remove", cost=70), H("c01_monotone", cost=15), H("c01_frame", cost=100), H("d_broadcast_custom", cost=65), H("d_gossip_upd_never", cost=90),
             H("a_apply1_k2", tier=T, cost=220), H("d_gossip_upd", tier=T, cost=900, timeout_t=3600, mem_gb=44), H("d_ping_upd", tier=T, cost=900, timeout_t=3600, mem_gb=44), H("c06_fuzz_gossip_7", tier=T, cost=120), H("a_change_identity", tier=T),
         ],
     },
     "C10": {
         "level": "model_checking", "bounds": BOUNDS_E1 + "; renew() yielding next / same / losing / no identity", "outside": OUT_E1, "assumptions": [STUBS],
         "harnesses": [
-            H("a_apply1_k1", cost=120), H("a_change_identity", cost=50), H("a_reuse", cost=12), H("a_leave", cost=40), H("c01_monotone", cost=15),
+            H("a_apply1_k1", cost=120), H("a_change_identity", cost=50), H("a_reuse", cost=12), H("a_leave", cost=40), H("c01_monotone", cost=15), H("d_ping_upd_never", cost=115),
             H("d_turn_undead_never", tier=T, cost=200), H("d_turn_undead_next", tier=T, cost=600, timeout_t=3000), H("d_gossip_upd", tier=T, cost=900, timeout_t=3600, mem_gb=44), H("d_ping_upd", tier=T, cost=900, timeout_t=3600, mem_gb=44), H("a_apply1_k2", tier=T, cost=220),
         ],
     },
@@ -202,7 +203,7 @@ PROPS = {
                         "answered with a TurnUndead only by an instance that renewed its identity in that step. The composition is the prose argument of DESIGN §4 C18."),
         "bounds": BOUNDS_E1, "outside": "the composition over several instances; " + OUT_E1, "assumptions": [STUBS],
         "harnesses": [
-            H("d_turn_undead_never", cost=200, timeout_q=900), H("d_turn_undead_losing", cost=200, timeout_q=900), H("d_ping", cost=80), H("d_ack", cost=70), H("d_gossip", cost=75), H("d_pingreq", cost=80),
+            H("d_turn_undead_never", cost=200, timeout_q=900), H("d_turn_undead_losing", cost=200, timeout_q=900), H("d_feed_upd_tight", cost=150, timeout_q=900), H("d_ping", cost=80), H("d_ack", cost=70), H("d_gossip", cost=75), H("d_pingreq", cost=80),
             H("d_turn_undead_next", tier=T, cost=600, timeout_t=3000), H("d_turn_undead", tier=T, cost=900, timeout_t=3600, mem_gb=40), H("d_announce", tier=T, cost=500, timeout_t=3000), H("d_announce_32", tier=T, cost=900, timeout_t=3600, mem_gb=40),
             H("d_indirect_ping", tier=T), H("d_indirect_ack", tier=T), H("d_fwd_ack", tier=T, cost=105), H("d_feed", tier=T), H("d_broadcast", tier=T), H("d_gossip_upd", tier=T, cost=900, timeout_t=3600, mem_gb=44),
             H("d_ping_upd", tier=T, cost=900, timeout_t=3600, mem_gb=44), H("c06_fuzz_gossip_7", tier=T, cost=120), H("d_turn_undead_k2", tier=T, cost=900, timeout_t=3000),
@@ -224,15 +225,15 @@ PROPS = {
         "assumptions": ["alloc::fmt::format stubbed to an empty string (error formatting has no effect on control flow)"],
         "harnesses": [
             H("c20_pc_member_roundtrip", cost=30, **CD), H("c20_pc_header_pingreq", cost=60, **CD), H("c20_pc_member_short_buffer", cost=60, **CD),
-            H("c20_pc_member_arbitrary_bytes", cost=60, **CD), H("c20_bc_member_encode_matches_reference", cost=90, **CD), H("c20_bc_member_arbitrary_bytes", cost=100, **CD),
+            H("c20_pc_member_arbitrary_bytes", cost=60, **CD), H("c20_bc_member_encode_matches_reference", cost=90, **CD), H("c20_bc_member_arbitrary_bytes", cost=100, **CD), H("c20_bc_member_limit_3", cost=20, **CD), H("c20_bc_member_limit_0", cost=20, **CD),
         ] + [H("c20_pc_header_" + v, tier=T, cost=60, **CD) for v in ["ping", "ack", "indirect_ping", "indirect_ack", "fwd_ack", "announce", "feed", "gossip", "broadcast", "turn_undead"]]
           + [H("c20_bc_header_" + v, tier=T, cost=200, timeout_t=3000, **CD) for v in ["ping", "pingreq", "fwd_ack", "announce", "turn_undead"]]
-          + [H("c20_pc_header_arbitrary_bytes", tier=T, cost=200, **CD), H("c20_bc_member_short_buffer", tier=T, cost=100, **CD), H("c20_bc_member_decode_reference", tier=T, cost=600, timeout_t=3000, mem_gb=44, **CD),
+          + [H("c20_pc_header_arbitrary_bytes", tier=T, cost=200, **CD), H("c20_bc_member_short_buffer", tier=T, cost=300, **CD), H("c20_bc_member_limit_5", tier=T, cost=900, timeout_t=3000, **CD), H("c20_bc_member_decode_reference", tier=T, cost=600, timeout_t=3000, mem_gb=44, **CD),
              H("c07_send_feed_failing", tier=T, cost=600, timeout_t=3000), H("c07_send_pb_9", tier=T)],
     },
 }
 
-DEV = ["t_gossip_idle","c16_broadcast_drain","c15_key_same_addr","c15_key_diff_addr","c16_broadcast_one","c20_bc_member_arbitrary_bytes"]
+DEV = ["c20_bc_member_limit_3","c20_bc_member_limit_5","d_feed_upd_tight","d_gossip_upd_never","d_ping_upd_never"]
 PROPS["DEV"] = {"level": "model_checking", "harnesses": [H(n, engine=("bcast" if n.startswith("bc_") else "codec" if n.startswith("c20_") or n.startswith("c06_config") else "incrate")) for n in DEV]}
 
 HOOK_COMMITS = ["2dd5aa0"]
